@@ -90,6 +90,27 @@ func guarded(f func()) (pan interface{}, stack string, alloc uint64, hung bool) 
 	return pan, stack, ms1.TotalAlloc - ms0.TotalAlloc, false
 }
 
+// guardedAlloc is guarded plus noise rejection for the allocation meter: TotalAlloc is process-wide
+// (HTTP keep-alive goroutines, timers), so a reading above the limit is re-measured twice and the
+// minimum is used; a real over-allocation is deterministic and survives.
+func guardedAlloc(limit uint64, f func()) (pan interface{}, stack string, alloc uint64, hung bool) {
+	pan, stack, alloc, hung = guarded(f)
+	if hung || pan != nil || alloc <= limit {
+		return
+	}
+	for k := 0; k < 2; k++ {
+		runtime.GC()
+		p2, s2, a2, h2 := guarded(f)
+		if h2 || p2 != nil {
+			return p2, s2, a2, h2
+		}
+		if a2 < alloc {
+			alloc = a2
+		}
+	}
+	return
+}
+
 type c15input struct {
 	Kind string `json:"kind"`
 	Hex  string `json:"hex"`
@@ -303,7 +324,7 @@ func (c15) Run(c *fw.Ctx) {
 			}
 			var re, rest []byte
 			var err error
-			pan, stack, alloc, hung := guarded(func() { re, rest, err = decodeWith(name, in) })
+			pan, stack, alloc, hung := guardedAlloc(uint64(64<<10+8*len(in)), func() { re, rest, err = decodeWith(name, in) })
 			c.Count("decoder_calls", 1)
 			if hung {
 				c.Violationf("hang:decoder:"+name, di, "%s.TakeFrom did not return within 30 s on a %d-byte input", name, len(in))
@@ -374,7 +395,7 @@ func (c15) Run(c *fw.Ctx) {
 			}
 			di := describeInput(name, how, body)
 			var err error
-			pan, stack, alloc, hung := guarded(func() {
+			pan, stack, alloc, hung := guardedAlloc(uint64(1<<20+16*len(body)), func() {
 				if raw {
 					_, _, err = wcmd.VerifReadWhisperFileRaw(srv.URL, "a.wsp", -1)
 				} else if r.Intn(2) == 0 {
@@ -518,7 +539,12 @@ func c15File(c *fw.Ctx, r *rand.Rand, j int) {
 
 	var h *wt.Whisper
 	var oerr error
-	pan, stack, alloc, hung := guarded(func() { h, oerr = wt.Open(path) })
+	pan, stack, alloc, hung := guardedAlloc(fileLimit, func() {
+		if h != nil {
+			h.Close()
+		}
+		h, oerr = wt.Open(path)
+	})
 	c.Count("open_calls", 1)
 	if hung {
 		c.Violationf("hang:open", di, "Open did not return within 30 s")
@@ -582,7 +608,7 @@ func c15File(c *fw.Ctx, r *rand.Rand, j int) {
 	}})
 	for _, o := range opsList {
 		var err error
-		pan, stack, alloc, hung := guarded(func() { err = o.f() })
+		pan, stack, alloc, hung := guardedAlloc(fileLimit, func() { err = o.f() })
 		c.Count("handle_ops_on_damaged", 1)
 		if hung {
 			c.Violationf("hang:handle-op", fw.J{"input": di, "op": o.name}, "%s did not return within 30 s on a damaged file", o.name)
